@@ -374,7 +374,13 @@ def _mixtures(ctx):
             check(f"30{blank}{tag} NaCl@2 // 20% H2O@1 // Fe", sp.Rational(30, 20), f"percentage '{tag}'{' after a blank' if blank else ''}: three parts", quantity)
             n += 2
     # a parenthesised mixture is a part
-    for text in ("20vol% (10 wt% NaCl@2.16 // H2O@1) // D2O@1n", "5g (10 wt% NaCl@2.16 // H2O@1) // 5g D2O@1n", "(10 wt% NaCl@2.16 // H2O@1)@1.1"):
+    nested = ["20vol% (10 wt% NaCl@2.16 // H2O@1) // D2O@1n", "5g (10 wt% NaCl@2.16 // H2O@1) // 5g D2O@1n", "(10 wt% NaCl@2.16 // H2O@1)@1.1"]
+    # every unit as the first thing inside a parenthesised part
+    for u in units["mass"] + units["volume"]:
+        nested.append(f"5g (1{u} H2O@1 // 1g NaCl@2) // 1g Fe")
+    for u in units["length"]:
+        nested.append(f"20vol% (1{u} H2O@1 // 1nm NaCl@2) // Fe")
+    for text in nested:
         try:
             f = I.call(fm, [text], {"table": w.table})
             at = I.getattr(f, "atoms")
@@ -383,5 +389,5 @@ def _mixtures(ctx):
         except SymRaise as exc:
             ctx.fail("R8", f"a parenthesised mixture as a part: {text!r}", f"rejected ({exc.exc} {exc.msg})", site, witness=text)
         n += 1
-    ctx.floor("R8", 60)
+    ctx.floor("R8", 73)
     ctx.unit("mixture_strings", n)
